@@ -1,6 +1,7 @@
 package props
 
 import (
+	"context"
 	"fmt"
 	"time"
 
@@ -48,11 +49,20 @@ type c03flush struct {
 
 // scheduledMakeRoot runs MakeRoot against the scheduled store under a policy.
 func scheduledMakeRoot(c *fw.C, e *kinds.Env, st *doubles.SchedStore, t *mast.Mast, policy string, r *fw.Rng) *c03flush {
+	return scheduledMakeRootCtx(c, e, st, t, policy, r, e.Ctx, nil, -1)
+}
+
+// scheduledMakeRootCtx: as above with the caller's context; cancel (if given)
+// is called once cancelAfter Store calls have been released.
+func scheduledMakeRootCtx(c *fw.C, e *kinds.Env, st *doubles.SchedStore, t *mast.Mast, policy string, r *fw.Rng, ctx context.Context, cancel func(), cancelAfter int) *c03flush {
 	out := &c03flush{}
 	done := make(chan struct{})
 	st.SetPassthrough(false)
+	if cancel != nil && cancelAfter == 0 {
+		cancel()
+	}
 	go func() {
-		root, err := t.MakeRoot(e.Ctx)
+		root, err := t.MakeRoot(ctx)
 		out.rp = st.MarkReturn() // first action after the call returns
 		out.root, out.err = root, err
 		close(done)
@@ -112,6 +122,9 @@ loop:
 		}
 		if cl := st.Release(idx); cl != nil {
 			out.order = append(out.order, cl.Arrival)
+		}
+		if cancel != nil && len(out.order) == cancelAfter {
+			cancel()
 		}
 		stable = 0
 	}
@@ -377,6 +390,53 @@ func runC03(c *fw.C) {
 			if msg := dumpCompare(&ne, lt, t2.s.M); msg != "" {
 				c.Violation("C03.returned_root_is_durable", ctx3, "the root returned by the retry loads to different contents: %s", msg)
 				return
+			}
+		}
+	}
+
+	// 2b. the caller's context is cancelled before or in the middle of the flush (the
+	// store double, like the in-memory and file stores, does not look at the context):
+	// MakeRoot may fail, but if it reports success everything must be durable
+	if c.Idx%3 == 1 && len(names) > 0 {
+		for rep := 0; rep < 3; rep++ {
+			t3, err := buildC03(seed, cfg, kind, mkCache())
+			if err != nil {
+				c.Obs("build_failed", 1)
+				break
+			}
+			cctx, cancel := context.WithCancel(t3.e.Ctx)
+			after := r.Intn(len(names) + 1)
+			t3.st.NewEpoch()
+			fc := scheduledMakeRootCtx(c, t3.e, t3.st, t3.s.T, policy, r, cctx, cancel, after)
+			cancel()
+			c.Obs("flushes_with_cancelled_context", 1)
+			ctx := map[string]string{"policy": policy, "flush": kindName, "cache": cfg.Cache, "phase": "context_cancelled"}
+			if !checkComplete(fc, fmt.Sprintf("flush whose context is cancelled after %d of %d Store calls completed", after, len(names)), ctx) {
+				return
+			}
+			if fc.err == nil {
+				c.Obs("cancelled_flushes_reporting_success", 1)
+			}
+			// either way the tree stays usable, and a later flush with a live context must be complete
+			t3.st.NewEpoch()
+			if msg := dumpCompare(t3.e, t3.s.T, t3.s.M); msg != "" {
+				c.Violation("C03.tree_usable_after_failed_flush", ctx, "after a flush with a cancelled context (err=%v) the tree differs from its model: %s", fc.err, msg)
+				return
+			}
+			f4 := scheduledMakeRoot(c, t3.e, t3.st, t3.s.T, policy, r)
+			if !checkComplete(f4, "flush after an earlier flush whose context was cancelled", ctx) {
+				return
+			}
+			if f4.err == nil {
+				ne := *t3.e
+				ne.Cache = nil
+				if lt, err := ne.Load(f4.root); err != nil {
+					c.Violation("C03.returned_root_is_durable", ctx, "the root returned after an earlier cancelled flush does not load without a cache: %v", err)
+					return
+				} else if msg := dumpCompare(&ne, lt, t3.s.M); msg != "" {
+					c.Violation("C03.returned_root_is_durable", ctx, "the root returned after an earlier cancelled flush loads to different contents: %s", msg)
+					return
+				}
 			}
 		}
 	}
